@@ -1,1 +1,309 @@
-//! Black-box driver for the real release binary (hooks off).
+//! Black-box driver for the real release binary (hooks off): the artefact a user runs.
+//!
+//! `Engine` keeps one process alive and delimits each command's output with a trailing
+//! `isready`/`readyok` pair. `run_stream` feeds a whole byte stream, closes stdin and collects
+//! stdout, the exit status and — through strace — the read(0, ..) system calls made after the end
+//! of input. CPU time comes from /proc/<pid>/stat (utime + stime).
+use std::io::{BufRead, BufReader, Read, Write};
+use std::path::{Path, PathBuf};
+use std::process::{Child, ChildStdin, Command, Stdio};
+use std::sync::mpsc::{channel, Receiver, RecvTimeoutError};
+use std::time::{Duration, Instant};
+
+#[derive(Debug)]
+pub enum Fail {
+    /// no complete answer within the watchdog (inconclusive by itself)
+    Timeout,
+    /// the process ended (exit status / signal in the text)
+    Died(String),
+}
+
+pub struct Engine {
+    child: Child,
+    stdin: Option<ChildStdin>,
+    rx: Receiver<String>,
+    pub pid: u32,
+}
+
+impl Engine {
+    pub fn spawn(bin: &Path) -> Result<Engine, String> {
+        let mut child = Command::new(bin).stdin(Stdio::piped()).stdout(Stdio::piped()).stderr(Stdio::null()).spawn().map_err(|e| format!("{}: {}", bin.display(), e))?;
+        let stdout = child.stdout.take().ok_or("no stdout")?;
+        let stdin = child.stdin.take();
+        let (tx, rx) = channel();
+        std::thread::spawn(move || {
+            let r = BufReader::new(stdout);
+            for line in r.lines() {
+                match line {
+                    Ok(l) => {
+                        if tx.send(l).is_err() {
+                            break;
+                        }
+                    }
+                    Err(_) => break,
+                }
+            }
+        });
+        let pid = child.id();
+        Ok(Engine { child, stdin, rx, pid })
+    }
+
+    pub fn send(&mut self, line: &str) -> Result<(), Fail> {
+        let s = self.stdin.as_mut().ok_or_else(|| Fail::Died("stdin closed".into()))?;
+        if s.write_all(line.as_bytes()).and_then(|_| s.write_all(b"\n")).and_then(|_| s.flush()).is_err() {
+            return Err(Fail::Died(self.status_text()));
+        }
+        Ok(())
+    }
+
+    fn status_text(&mut self) -> String {
+        // give the process a moment to be reaped
+        for _ in 0..50 {
+            if let Ok(Some(st)) = self.child.try_wait() {
+                return describe_status(&st);
+            }
+            std::thread::sleep(Duration::from_millis(10));
+        }
+        "still running but not reading".into()
+    }
+
+    /// Lines printed until `readyok` (exclusive). Err(Timeout) when the watchdog expires first.
+    pub fn read_until_readyok(&mut self, watchdog: Duration) -> Result<Vec<String>, Fail> {
+        let deadline = Instant::now() + watchdog;
+        let mut out = vec![];
+        loop {
+            let left = deadline.saturating_duration_since(Instant::now());
+            match self.rx.recv_timeout(left) {
+                Ok(l) => {
+                    if l.trim() == "readyok" {
+                        return Ok(out);
+                    }
+                    out.push(l);
+                }
+                Err(RecvTimeoutError::Timeout) => return Err(Fail::Timeout),
+                Err(RecvTimeoutError::Disconnected) => return Err(Fail::Died(format!("{} (output so far: {:?})", self.status_text(), out))),
+            }
+        }
+    }
+
+    /// Send one command followed by `isready`; return what was printed before `readyok`.
+    pub fn command(&mut self, line: &str, watchdog: Duration) -> Result<Vec<String>, Fail> {
+        self.send(line)?;
+        self.send("isready")?;
+        self.read_until_readyok(watchdog)
+    }
+
+    /// utime + stime of the process in milliseconds
+    pub fn cpu_ms(&self) -> u64 {
+        cpu_ms_of(self.pid)
+    }
+
+    /// Send quit, wait for the exit status (killing after the watchdog).
+    pub fn quit(mut self) -> String {
+        let _ = self.send("quit");
+        self.stdin = None;
+        self.wait_exit(Duration::from_secs(10))
+    }
+
+    /// Close stdin (end of input) and wait.
+    pub fn close_and_wait(mut self, watchdog: Duration) -> String {
+        self.stdin = None;
+        self.wait_exit(watchdog)
+    }
+
+    fn wait_exit(&mut self, watchdog: Duration) -> String {
+        let deadline = Instant::now() + watchdog;
+        loop {
+            match self.child.try_wait() {
+                Ok(Some(st)) => return describe_status(&st),
+                Ok(None) => {
+                    if Instant::now() > deadline {
+                        let _ = self.child.kill();
+                        let _ = self.child.wait();
+                        return "killed by the watchdog".into();
+                    }
+                    std::thread::sleep(Duration::from_millis(5));
+                }
+                Err(e) => return format!("wait failed: {}", e),
+            }
+        }
+    }
+}
+
+impl Drop for Engine {
+    fn drop(&mut self) {
+        self.stdin = None;
+        if let Ok(None) = self.child.try_wait() {
+            // an engine that honours end of input exits by itself; do not leave strays behind
+            std::thread::sleep(Duration::from_millis(20));
+            if let Ok(None) = self.child.try_wait() {
+                let _ = self.child.kill();
+            }
+        }
+        let _ = self.child.wait();
+    }
+}
+
+pub fn describe_status(st: &std::process::ExitStatus) -> String {
+    use std::os::unix::process::ExitStatusExt;
+    if let Some(c) = st.code() {
+        format!("exit status {}", c)
+    } else if let Some(s) = st.signal() {
+        format!("killed by signal {}", s)
+    } else {
+        "unknown status".into()
+    }
+}
+
+pub fn cpu_ms_of(pid: u32) -> u64 {
+    let text = match std::fs::read_to_string(format!("/proc/{}/stat", pid)) {
+        Ok(t) => t,
+        Err(_) => return 0,
+    };
+    // fields after the parenthesised command name
+    let rest = match text.rfind(')') {
+        Some(i) => &text[i + 1..],
+        None => return 0,
+    };
+    let f: Vec<&str> = rest.split_whitespace().collect();
+    // rest[0] is field 3 (state); utime = field 14, stime = field 15
+    let utime = f.get(11).and_then(|x| x.parse::<u64>().ok()).unwrap_or(0);
+    let stime = f.get(12).and_then(|x| x.parse::<u64>().ok()).unwrap_or(0);
+    (utime + stime) * 10 // USER_HZ is 100 on Linux
+}
+
+pub struct StreamResult {
+    pub stdout: Vec<String>,
+    /// "exit status N" / "killed by signal N" / "killed by the watchdog"
+    pub status: String,
+    pub exit_code: Option<i32>,
+    pub watchdog_fired: bool,
+    /// zero-length reads of fd 0 seen by strace (None when strace was not used / unusable)
+    pub eof_reads: Option<u64>,
+    /// the monitor killed the process because it kept reading an ended input
+    pub spun: bool,
+    pub cpu_ms: u64,
+}
+
+pub fn strace_available() -> bool {
+    Command::new("strace").arg("-V").stdout(Stdio::null()).stderr(Stdio::null()).status().map(|s| s.success()).unwrap_or(false)
+}
+
+/// Feed `input` to a fresh process, close its stdin, collect everything.
+/// With `trace`, the process runs under `strace -e trace=read,exit_group` writing to `trace_file`;
+/// the monitor watches the trace file: once it shows `spin_threshold` zero-length reads of fd 0
+/// the process is killed (it is spinning on an ended input) — an event count, not a timeout.
+pub fn run_stream(bin: &Path, input: &[u8], trace_file: Option<&PathBuf>, watchdog: Duration, spin_threshold: u64) -> Result<StreamResult, String> {
+    let mut cmd = if let Some(tf) = trace_file {
+        let _ = std::fs::remove_file(tf);
+        let mut c = Command::new("strace");
+        c.arg("-qq").arg("-e").arg("trace=read,exit_group").arg("-o").arg(tf).arg(bin);
+        c
+    } else {
+        Command::new(bin)
+    };
+    let mut child = cmd.stdin(Stdio::piped()).stdout(Stdio::piped()).stderr(Stdio::null()).spawn().map_err(|e| e.to_string())?;
+    let mut stdout = child.stdout.take().ok_or("no stdout")?;
+    let reader = std::thread::spawn(move || {
+        let mut s = Vec::new();
+        let _ = stdout.read_to_end(&mut s);
+        s
+    });
+    {
+        let mut stdin = child.stdin.take().ok_or("no stdin")?;
+        // a process that has already exited (quit in the middle of the stream) closes the pipe
+        let _ = stdin.write_all(input);
+        let _ = stdin.flush();
+    } // stdin dropped here: end of input
+    let start = Instant::now();
+    let mut watchdog_fired = false;
+    let mut spun = false;
+    let pid = child.id();
+    let mut cpu = 0;
+    let status = loop {
+        match child.try_wait() {
+            Ok(Some(st)) => break Some(st),
+            Ok(None) => {}
+            Err(e) => return Err(e.to_string()),
+        }
+        let c = total_cpu_ms_tree(pid);
+        if c > cpu {
+            cpu = c;
+        }
+        if let Some(tf) = trace_file {
+            if start.elapsed() > Duration::from_millis(200) && count_eof_reads(tf) >= spin_threshold {
+                spun = true;
+                kill_tree(pid);
+                let _ = child.kill();
+                break child.wait().ok();
+            }
+        }
+        if start.elapsed() > watchdog {
+            watchdog_fired = true;
+            kill_tree(pid);
+            let _ = child.kill();
+            break child.wait().ok();
+        }
+        std::thread::sleep(Duration::from_millis(5));
+    };
+    let out = reader.join().unwrap_or_default();
+    let stdout: Vec<String> = String::from_utf8_lossy(&out).lines().map(|l| l.to_string()).collect();
+    let eof_reads = trace_file.map(|tf| count_eof_reads(tf));
+    let (status_text, code) = match (&status, watchdog_fired, spun) {
+        (_, _, true) => ("killed by the monitor while spinning on an ended input".to_string(), None),
+        (_, true, _) => ("killed by the watchdog".to_string(), None),
+        (Some(st), _, _) => {
+            // under strace the tracer exits with the tracee's status (or kills itself with the
+            // tracee's signal), so the status seen here is the engine's own
+            (describe_status(st), st.code())
+        }
+        (None, _, _) => ("unknown".to_string(), None),
+    };
+    Ok(StreamResult { stdout, status: status_text, exit_code: code, watchdog_fired, eof_reads, spun, cpu_ms: cpu })
+}
+
+pub fn count_eof_reads(trace: &PathBuf) -> u64 {
+    let text = match std::fs::read(trace) {
+        Ok(t) => t,
+        Err(_) => return 0,
+    };
+    let text = String::from_utf8_lossy(&text);
+    text.lines().filter(|l| l.starts_with("read(0, \"\",") && l.trim_end().ends_with("= 0")).count() as u64
+}
+
+pub fn trace_shows_exit_group(trace: &PathBuf) -> Option<i64> {
+    let text = std::fs::read(trace).ok()?;
+    let text = String::from_utf8_lossy(&text);
+    for l in text.lines() {
+        if let Some(rest) = l.strip_prefix("exit_group(") {
+            return rest.split(')').next().and_then(|x| x.trim().parse::<i64>().ok());
+        }
+    }
+    None
+}
+
+fn children_of(pid: u32) -> Vec<u32> {
+    let mut v = vec![];
+    if let Ok(rd) = std::fs::read_dir(format!("/proc/{}/task", pid)) {
+        for t in rd.flatten() {
+            if let Ok(s) = std::fs::read_to_string(t.path().join("children")) {
+                v.extend(s.split_whitespace().filter_map(|x| x.parse::<u32>().ok()));
+            }
+        }
+    }
+    v
+}
+
+fn total_cpu_ms_tree(pid: u32) -> u64 {
+    let mut t = cpu_ms_of(pid);
+    for c in children_of(pid) {
+        t += cpu_ms_of(c);
+    }
+    t
+}
+
+fn kill_tree(pid: u32) {
+    for c in children_of(pid) {
+        let _ = Command::new("kill").arg("-9").arg(c.to_string()).status();
+    }
+}
